@@ -101,6 +101,8 @@ Run(c, k) ==
         \* the two kinds answer alike (checked below); the history keeps the Stream's answers and pull count
         /\ hist' = Append(hist, [from |-> c, k |-> k, n |-> Len(s[4]), first |-> IF s[4] = <<>> THEN 0 ELSE s[4][1],
                                  end |-> s[3], pulled |-> s[2], ioend |-> o[3], ion |-> Len(o[4]),
+                                 \* <Stream as ExactSizeInput>::span_from(end..): cursor .. tokens.len() + iter.len()
+                                 sfrom |-> s[3], sto |-> Len(s[1]) + (N - s[2]),
                                  iofirst |-> IF o[4] = <<>> THEN 0 ELSE o[4][1]])
 
 Next == \E c \in known, k \in Runs : Run(c, k)
@@ -120,6 +122,7 @@ AnswersRight ==
     LET h == hist[i] IN
     /\ h.n = Min(h.k, N - h.from) /\ h.end = h.from + h.n /\ (h.n > 0 => h.first = h.from + 1)
     /\ h.ion = h.n /\ h.ioend = h.end /\ h.iofirst = h.first
+    /\ h.sfrom = h.end /\ h.sto = N          \* the span to the end of the input does not depend on what is cached
 CFAgrees == \A c \in known, k \in Runs : /\ StreamRun(vec, it, c, k, <<>>) = StreamRunCF(vec, it, c, k)
                                            /\ IoRun(rpos, last, c, k, <<>>) = IoRunCF(rpos, last, c, k)
 Replay == (Len(hist) = MaxOps) => PrintT("INPUTS " \o ToJson([n |-> N, batch |-> Batch, hist |-> hist]))
